@@ -39,7 +39,8 @@ class MinSetCover():
         
         self.universe = universe
         self.subsets = subsets
-        self.subset_weights = subset_weights
+        # By default every subset has weight 1 (minimum-cardinality set cover)
+        self.subset_weights = subset_weights if subset_weights is not None else [1] * len(subsets)
         self.set_cover = []
         self.set_cover_indices = []
         self.set_cover_weights = []
@@ -100,7 +101,8 @@ class MinSetCover():
         self.solver.optimize()
         if self.solver.get_model_status() == "kOptimal":
             subset_cover_sol = self.solver.get_values(self.subset_vars)
-            self._solution = [i for i in range(len(self.subsets)) if subset_cover_sol[i] == 1]
+            # The solver returns floats (e.g. 1.0000000000000002): round before comparing
+            self._solution = [i for i in range(len(self.subsets)) if round(subset_cover_sol[i]) == 1]
             self._is_solved = True
             self.solve_statistics = {
                 "solve_time": time.perf_counter() - start_time,
